@@ -14,7 +14,12 @@ import (
 
 	"golang.org/x/text/language"
 	"seehuhn.de/go/postscript/funit"
+	"seehuhn.de/go/sfnt"
+	"seehuhn.de/go/sfnt/cff"
+	"seehuhn.de/go/sfnt/cmap"
+	"seehuhn.de/go/sfnt/glyf"
 	"seehuhn.de/go/sfnt/glyph"
+	"seehuhn.de/go/sfnt/internal/debug"
 	"seehuhn.de/go/sfnt/opentype/anchor"
 	"seehuhn.de/go/sfnt/opentype/classdef"
 	"seehuhn.de/go/sfnt/opentype/coverage"
@@ -2175,6 +2180,7 @@ func areaShape(c *Ctx) {
 		g.emit(sc, "filter cache family")
 	}
 	g.countMismatchFamily()
+	g.layoutFamily()
 	// over-budget rules whose nested insertions produce glyphs that start the same match again
 	// (termination: the progress guard and the EndPos of the outermost match), every run, LAST
 	// among the fixed families because a non-terminating engine ends the run after three time-outs
@@ -3017,6 +3023,121 @@ func (g *shpGen) countMismatchFamily() {
 				g.c.Stat("obligation: count field vs coverage size", "read ("+out+"): "+what)
 				sc := &shpCase{ll: info.LookupList, gd: shpFamGdef, lookups: []gtab.LookupIndex{0}, hist: [][]glyph.Info{seq}}
 				g.emit(sc, "gtab.Read (count field vs coverage size)")
+			}
+		}
+	}
+}
+
+// ================================================================ Layouter level (round 8)
+//
+// sfnt.Layouter.Layout = cmap lookup, GSUB, advance widths from Font.GlyphWidth, GPOS.  The glyph
+// IDs that cmap or GSUB deliver need not exist in the font: Layout must not panic, conserve the
+// text, and give a glyph beyond the font the advance 0 (GlyphWidth's out-of-range result).
+//
+//   D shape.layout kind=cff|glyf via=gsub|cmap ng=<NumGlyphs> target=<gid> w=<width of target or 0>
+//   Go: builds the font, lays out "BAB" and prints `ok gid=<gid of the middle glyph> adv=<its advance> text=kept`;
+//   driver: `ok gid=<target> adv=<w if target < ng else 0> text=kept`.
+
+func shpLayoutFont(kind string) *sfnt.Font {
+	font := debug.MakeSimpleFont() // CFF outlines
+	if kind == "glyf" {
+		cffo := font.Outlines.(*cff.Outlines)
+		o := &glyf.Outlines{Glyphs: make(glyf.Glyphs, len(cffo.Glyphs)), Widths: make([]funit.Int16, len(cffo.Glyphs))}
+		for i, g := range cffo.Glyphs {
+			o.Widths[i] = funit.Int16(g.Width)
+		}
+		font.Outlines = o
+	}
+	return font
+}
+
+func shpLayoutRun(f Fields) string {
+	font := shpLayoutFont(f["kind"])
+	target := glyph.ID(f.Int("target"))
+	best, err := font.CMapTable.GetBest()
+	if err != nil {
+		return "err:cmap"
+	}
+	gidA, gidB := best.Lookup('A'), best.Lookup('B')
+	if f["via"] == "cmap" {
+		cm := cmap.Format4{'A': target, 'B': gidB}
+		font.CMapTable = cmap.Table{{PlatformID: 3, EncodingID: 1}: cm.Encode(0)}
+	} else {
+		font.Gsub = &gtab.Info{
+			ScriptList:  map[language.Tag]*gtab.Features{language.MustParse("und-Zzzz"): {Required: 0}},
+			FeatureList: []*gtab.Feature{{Tag: "test", Lookups: []gtab.LookupIndex{0}}},
+			LookupList: gtab.LookupList{{Meta: &gtab.LookupMetaInfo{LookupType: 1},
+				Subtables: []gtab.Subtable{&gtab.Gsub1_1{Cov: coverage.Set{gidA: true}, Delta: target - gidA}}}},
+		}
+	}
+	layouter, err := font.NewLayouter(language.Und, map[string]bool{"test": true}, nil)
+	if err != nil {
+		return "err:layouter"
+	}
+	out := layouter.Layout("BAB")
+	var text []rune
+	for _, g := range out {
+		text = append(text, g.Text...)
+	}
+	kept := "kept"
+	if string(text) != "BAB" {
+		kept = "lost"
+	}
+	if len(out) != 3 {
+		return fmt.Sprintf("ok len=%d text=%s", len(out), kept)
+	}
+	return fmt.Sprintf("ok gid=%d adv=%d text=%s", out[1].GID, out[1].Advance, kept)
+}
+
+func init() {
+	ops["shape.layout"] = shpLayoutRun
+}
+
+// layoutFamily: CFF and glyf fonts x glyph IDs NumGlyphs-1, NumGlyphs, NumGlyphs+1, 0xFFFF (and
+// two inside the font) x delivered by a GSUB substitution or by the cmap.
+func (g *shpGen) layoutFamily() {
+	for _, kind := range []string{"cff", "glyf"} {
+		ng, widths := func() (ng int, w []int) {
+			defer func() {
+				if recover() != nil {
+					ng, w = -1, nil
+				}
+			}()
+			font := shpLayoutFont(kind)
+			ng = font.NumGlyphs()
+			for i := 0; i < ng; i++ {
+				switch o := font.Outlines.(type) {
+				case *cff.Outlines:
+					w = append(w, int(funit.Int16(o.Glyphs[i].Width)))
+				case *glyf.Outlines:
+					w = append(w, int(o.Widths[i]))
+				}
+			}
+			return ng, w
+		}()
+		if ng < 4 {
+			g.c.Stat("obligation: Layouter with glyph IDs around NumGlyphs", "font maker failed: "+kind)
+			continue
+		}
+		for _, via := range []string{"gsub", "cmap"} {
+			for _, target := range []int{1, ng / 2, ng - 1, ng, ng + 1, ng + 2, 0xFFFF} {
+				w := 0
+				if target < ng {
+					w = widths[target]
+				}
+				g.c.Case(Direct, "shape.layout", fmt.Sprintf("kind=%s via=%s ng=%d target=%d w=%d", kind, via, ng, target, w), true)
+				what := "inside the font"
+				switch {
+				case target == ng-1:
+					what = "NumGlyphs-1"
+				case target == ng:
+					what = "NumGlyphs"
+				case target == ng+1 || target == ng+2:
+					what = "NumGlyphs+1, +2"
+				case target == 0xFFFF:
+					what = "0xFFFF"
+				}
+				g.c.Stat("obligation: Layouter with glyph IDs around NumGlyphs", kind+" via "+via+": "+what)
 			}
 		}
 	}
